@@ -42,8 +42,11 @@ SPEC = dict(
         "'isConnected() means a session was established on this connection' holds for every history; 'isConnected() implies authenticated' is "
         "proved under the named hypothesis demandsAuth (features received while unauthenticated always lead into STARTTLS or an authentication "
         "exchange the configuration uses); an example shows the hypothesis is necessary",
-        "bindAvail/smAvail are read only by the bind / resume listeners, which are entered only by the features handler that has just written "
-        "them (argument by inspection of the model, not a theorem); csiAvail IS used stale by a legacy login - recorded finding",
+        "bindAvail/smAvail/csiAvail are not reset by handleStart; theorem avail_fields_written_before_use: a step that enters a listener from "
+        "which a session can be opened has written them from the features element it received (or cleared csiAvail on a version-less "
+        "header), and a session is only opened by the idle listener on a features element, from such a listener, or by a SASL2 success "
+        "carrying <resumed/> (stated exception: an inline-resumed session keeps the CSI availability of the session it resumes); that the "
+        "fields are not modified while the client stays in those listeners is by inspection of the model (they only change the listener)",
     ],
     level_text="Theorems quantified over every history (all event scripts of any length): the cut leaves disconnected/no session/not "
                "authenticated with exactly one disconnected signal; outstanding requests are finished unless resumable; EVERY negotiation "
